@@ -5,7 +5,7 @@
 import Nstd.Future.Safety6
 set_option linter.unusedSimpArgs false
 set_option linter.unusedVariables false
-namespace Nstd.Future
+namespace Nstd.Future.Safe
 
 /-- frames of `~ThreadPool` (main thread) -/
 def dFr : Frame → Bool
@@ -85,4 +85,4 @@ theorem shapeP (s : State) (t : Tid) (th : Thread) (fr : Frame) (rest : List Fra
       try (simp_all; done)
       try (exfalso; obtain ⟨x, hx⟩ := ringStep_raw (by assumption); exact hraw x (by rw [hx]))
 
-end Nstd.Future
+end Nstd.Future.Safe
